@@ -32,6 +32,10 @@ of the momentum the earlier vertices produce — i.e. that the helicity-frame mo
 `cascade_angles`) is the image under the route of the top-frame momentum.  `vertex_is_rest_vector` proves one level of it (matrix = `rest_vector`
 then rotation of coordinates); what is left is that the code keeps the un-rotated coordinates together with the axes
 `set_x`, `set_z` instead of rotating (frame bookkeeping over the levels).  That link is validated on the implementation.
+
+UPDATE (round 4): the hypothesis is DISCHARGED in `Props/C02e.lean` — `route_to_rest_of_cascade` proves `RouteToRest` for
+every decay path of every binary tree from the cascade model (`templates/Cascade.lean.in`, `templates/RouteRest.lean.in`)
+under the code's own guards, and the theorems of section (5) are restated there with hypotheses on the event only.
 -/
 open TfPwaV.ScalarR
 open Matrix
